@@ -304,10 +304,16 @@ _gc_counter = 0
 
 
 def gc_every(_runner: Any, n: int = 50) -> None:
+    """Checks that call gc.collect() inside a case (registry properties) would pay for the whole heap
+    of the search (Hypothesis' bookkeeping, the case history) on every call, so cost per case grew
+    with the number of cases already run. After each case everything still alive is moved to the
+    permanent generation (gc.freeze); every n cases it is thawed, collected and frozen again."""
     global _gc_counter
     _gc_counter += 1
     if _gc_counter % n == 0:
+        gc.unfreeze()
         gc.collect()
+    gc.freeze()
 
 
 def _is_hypothesis_control(e: BaseException) -> bool:
